@@ -106,7 +106,7 @@ class Projector:
     def __init__(self, run: dict, before: dict[str, bytes], after: dict[str, bytes], *, trace_id: str,
                  expect: dict | None = None, site_lines: dict[str, list[int]] | None = None,
                  outside_unchanged: bool = True, schema_check=None, output_given: bool | None = None,
-                 site_findings: dict | None = None):
+                 site_findings: dict | None = None, observe: bool = False, bag_check=None):
         self.run = run
         self.before = before
         self.after = after
@@ -114,6 +114,8 @@ class Projector:
         self.expect_in = expect or {}
         self.site_lines = site_lines or {}
         self.site_findings = site_findings or {}
+        self.observe = observe
+        self.bag_check = bag_check
         self.outside_unchanged = outside_unchanged
         self.schema_check = schema_check
         self.vers: dict[str, int] = {}
@@ -179,7 +181,7 @@ class Projector:
             "files": False, "mayChange": [], "mustChange": [],
             "sites": False, "siteMay": {}, "siteMust": {}, "exit": -1,
             "sel": False, "queues": [], "faults": False, "mustFail": [],
-            "deps": False, "cand": [], "mustOne": False,
+            "deps": False, "cand": [], "mustOne": False, "frozen": bool(self.expect_in.get("frozen")),
         }
         ein = self.expect_in
         if "mayChange" in ein:
@@ -339,13 +341,40 @@ class Projector:
                                 findings_ok = False
                                 self.notes.append(f"change entry for line {ln} of {rel} carries {got}, reported for that site: {want}")
             _ = cs
+        obs = {"parsesOk": True, "namesOk": True, "bagOk": True}
+        if self.observe and css and new >= 0 and rel.endswith(".py"):
+            obs = self._observe(rel, pre_text, self.texts.get(new), css)
         return {
             "ev": "FileEnd", "f": self.tok(rel), "o": outcome, "new": new, "post": post,
             "nchanges": nchanges, "nchangesets": len(css), "linesOk": lines_ok, "descOk": desc_ok, "pathOk": path_ok,
             "sites": sites, "clines": clines,
             "unfixedAll": (e.get("nresults") is None) or len(e.get("unfixed") or []) >= (e.get("nresults") or 0),
             "findingsOk": findings_ok, "unfixedOk": unfixed_ok,
+            "parsesOk": obs["parsesOk"], "namesOk": obs["namesOk"], "bagOk": obs["bagOk"],
         }
+
+    def _observe(self, rel: str, pre_text, new_text, css) -> dict:
+        from . import pyoracle
+
+        out = {"parsesOk": True, "namesOk": True, "bagOk": True}
+        if pre_text is None or new_text is None:
+            return out
+        pre_c, new_c = pyoracle.compiles(pre_text), pyoracle.compiles(new_text)
+        pre_p, new_p = pre_c or pyoracle.parses(pre_text), new_c or pyoracle.parses(new_text)
+        if (pre_c and not new_c) or (pre_p and not new_p):
+            out["parsesOk"] = False
+            self.notes.append(f"{rel}: compiled/parsed before the rewrite ({pre_c}/{pre_p}), after ({new_c}/{new_p})")
+        if pre_c and new_c:
+            a, b = pyoracle.unresolved(pre_text), pyoracle.unresolved(new_text)
+            if a is not None and b is not None and (b - a):
+                out["namesOk"] = False
+                self.notes.append(f"{rel}: names unresolved only after the rewrite: {sorted(b - a)}")
+        if self.bag_check is not None and pre_p and new_p:
+            err = self.bag_check(rel, pre_text, new_text, css)
+            if err:
+                out["bagOk"] = False
+                self.notes.append(f"{rel}: {err}")
+        return out
 
     def _deps(self, e: dict) -> dict:
         store = e.get("chosen")
